@@ -19,6 +19,10 @@ type tcpLnState struct {
 }
 
 type tcpConnState struct {
+	in       []*Term // bytes sent by the peer, not yet read
+	peerFIN  bool    // the peer closed its write side
+	out      int     // bytes written by the server side
+	waiters  []*G
 	cell   *Cell
 	closed int
 	local  Value
@@ -33,13 +37,14 @@ type tcpModel struct {
 	nextPort int
 	allConns []*tcpConnState
 	listenFaults map[string]bool
+	listenCount  map[int]int
 }
 
 func (e *Exec) tcpSt() *tcpModel {
 	if v, ok := e.userState["tcpmodel"]; ok {
 		return v.(*tcpModel)
 	}
-	m := &tcpModel{lns: map[*Cell]*tcpLnState{}, conns: map[*Cell]*tcpConnState{}, bound: map[string]*tcpLnState{}, nextPort: 40000, listenFaults: map[string]bool{}}
+	m := &tcpModel{lns: map[*Cell]*tcpLnState{}, conns: map[*Cell]*tcpConnState{}, bound: map[string]*tcpLnState{}, nextPort: 40000, listenFaults: map[string]bool{}, listenCount: map[int]int{}}
 	e.userState["tcpmodel"] = m
 	return m
 }
@@ -99,6 +104,7 @@ func registerNetModel(p *Program) {
 		m.lns[c] = st
 		m.bound[key] = st
 		e.trace = append(e.trace, "ListenTCP "+key)
+		m.listenCount[pn]++
 		return TupleV{PtrV{C: c}, IfaceV{}}
 	})
 	p.reg("(*net.TCPListener).Addr", func(e *Exec, g *G, a []Value) Value {
@@ -157,14 +163,75 @@ func registerNetModel(p *Program) {
 		st := e.tcpSt().conns[a[0].(PtrV).C]
 		return IfaceV{T: types.NewPointer(e.prog.namedType("net", "TCPAddr")), V: st.local}
 	})
-	eofRead := func(e *Exec, g *G, a []Value) Value {
-		pkg := e.prog.byPath["io"]
-		eof := e.load(e.global(pkg.Var("EOF"))).(IfaceV)
-		return TupleV{e.tc.Const(64, 0), eof}
-	}
-	p.reg("(*net.TCPConn).Read", eofRead)
+	p.reg("(*net.TCPConn).Read", func(e *Exec, g *G, a []Value) Value {
+		st := e.tcpSt().conns[a[0].(PtrV).C]
+		b := a[1].(SliceV)
+		if st.closed > 0 {
+			return TupleV{e.tc.Const(64, 0), e.opError("read", e.errClosedVal())}
+		}
+		if len(st.in) > 0 {
+			n := int(e.concretize(b.Len, "tcp read buffer length"))
+			if n > len(st.in) {
+				n = len(st.in)
+			}
+			if n > 0 {
+				e.builtinCopy(b, e.bytesSliceFromTerms(st.in[:n]))
+				st.in = st.in[n:]
+			}
+			return TupleV{e.tc.Const(64, uint64(n)), IfaceV{}}
+		}
+		if st.peerFIN {
+			pkg := e.prog.byPath["io"]
+			eof := e.load(e.global(pkg.Var("EOF"))).(IfaceV)
+			return TupleV{e.tc.Const(64, 0), eof}
+		}
+		st.waiters = append(st.waiters, g)
+		e.block(g, fmt.Sprintf("TCPConn.Read (conn %d)", st.id))
+		return blockedResult{}
+	})
+	p.reg("(*net.TCPConn).WriteTo", func(e *Exec, g *G, a []Value) Value {
+		return tailCall{fn: &FuncV{Fn: e.prog.funcByName("net", "genericWriteTo")}, args: a}
+	})
+	p.reg("(*net.TCPConn).ReadFrom", func(e *Exec, g *G, a []Value) Value {
+		return tailCall{fn: &FuncV{Fn: e.prog.funcByName("net", "genericReadFrom")}, args: a}
+	})
 	p.reg("(*net.TCPConn).Write", func(e *Exec, g *G, a []Value) Value {
+		st := e.tcpSt().conns[a[0].(PtrV).C]
+		st.out += int(e.concretize(a[1].(SliceV).Len, "tcp write length"))
 		return TupleV{a[1].(SliceV).Len, IfaceV{}}
+	})
+	// outbound dials: the connection fails (neither the sandbox nor the model has reachable targets)
+	p.reg("(*github.com/Jigsaw-Code/outline-sdk/transport.TCPDialer).DialStream", func(e *Exec, g *G, a []Value) Value {
+		e.trace = append(e.trace, "DialStream "+e.describe(a[2]))
+		e.userState["dials"] = e.tc.Const(64, e.dialCount()+1)
+		return TupleV{IfaceV{}, e.opError("dial", e.errValue("connect: network is unreachable"))}
+	})
+	p.reg("verif:verifTCPSend", func(e *Exec, g *G, a []Value) Value {
+		m := e.tcpSt()
+		cs := m.allConns[int(a[0].(*Term).Val)]
+		cs.in = append(cs.in, e.sliceTerms(a[1].(SliceV))...)
+		g.vc.tick(g.id)
+		ws := cs.waiters
+		cs.waiters = nil
+		for _, w := range ws {
+			e.wake(w)
+		}
+		return nil
+	})
+	p.reg("verif:verifTCPCloseWrite", func(e *Exec, g *G, a []Value) Value {
+		m := e.tcpSt()
+		cs := m.allConns[int(a[0].(*Term).Val)]
+		cs.peerFIN = true
+		ws := cs.waiters
+		cs.waiters = nil
+		for _, w := range ws {
+			e.wake(w)
+		}
+		return nil
+	})
+	p.reg("verif:verifTCPReceivedLen", func(e *Exec, g *G, a []Value) Value {
+		m := e.tcpSt()
+		return e.tc.Const(64, uint64(m.allConns[int(a[0].(*Term).Val)].out))
 	})
 	nilErr := func(e *Exec, g *G, a []Value) Value { return IfaceV{} }
 	for _, mname := range []string{"CloseRead", "CloseWrite", "SetDeadline", "SetReadDeadline", "SetWriteDeadline"} {
@@ -178,6 +245,10 @@ func registerNetModel(p *Program) {
 		ipk, port := e.tcpAddrKey(iv.V.(PtrV))
 		key := fmt.Sprintf("%s:%d", ipk, port.Val)
 		ln, ok := m.bound[key]
+		if !ok || ln.closed {
+			// a listener on the wildcard address accepts connections to any local address
+			ln, ok = m.bound[fmt.Sprintf(":%d", port.Val)]
+		}
 		if !ok || ln.closed {
 			return e.tc.Const(64, ^uint64(0)) // connection refused
 		}
@@ -223,6 +294,9 @@ func registerNetModel(p *Program) {
 		e.tcpSt().listenFaults[strArg(a[0])] = a[1].(*Term).IsTrue()
 		return nil
 	})
+	p.reg("verif:verifTCPListenCount", func(e *Exec, g *G, a []Value) Value {
+		return e.tc.Const(64, uint64(e.tcpSt().listenCount[int(a[0].(*Term).Val)]))
+	})
 	p.reg("verif:verifTCPBound", func(e *Exec, g *G, a []Value) Value {
 		n := 0
 		for _, ln := range e.tcpSt().bound {
@@ -232,4 +306,11 @@ func registerNetModel(p *Program) {
 		}
 		return e.tc.Const(64, uint64(n))
 	})
+}
+
+func (e *Exec) dialCount() uint64 {
+	if v, ok := e.userState["dials"]; ok {
+		return v.(*Term).Val
+	}
+	return 0
 }
